@@ -105,7 +105,7 @@ class Sha:
             except Unsupported:
                 continue
         t = z3.Int(e.fresh_name("sha512"))
-        e.add(z3.And(t >= 0, t < 2 ** 512))
+        e.add(z3.And(t > 0, t < 2 ** 512))  # a digest is never all zero bytes (part of the random-oracle assumption)
         for _inp, other in table:
             e.add(t != other.t)  # no collisions (random-oracle assumption)
         hv = SymInt(t)
@@ -288,6 +288,14 @@ def client_unit(M):
         other = reference(sym, a, Bv, saltv, "999-99-999")
         ex.require(not c.verify_servers_proof_bytes(other["M2"]), "the proof of an accessory that holds another setup code is rejected")
         ex.require(not c.verify_servers_proof_bytes(ref["M1"]), "the client's own proof is not accepted as the accessory's proof")
+        m2 = as_rope(ref["M2"]) if sym else bytes(ref["M2"])
+        ex.require(not c.verify_servers_proof_bytes(b""), "an empty proof is rejected")
+        tail, last = (m2.slice(1, 64), m2.slice(63, 64)) if sym else (m2[1:], m2[63:])
+        first_nonzero = decide(m2[0] != 0)
+        if first_nonzero:
+            ex.require(not c.verify_servers_proof_bytes(tail), "the correct proof without its (non-zero) first byte is rejected")
+        if decide(as_int(m2.slice(0, 63) if sym else m2[:63]) != 0):
+            ex.require(not c.verify_servers_proof_bytes(last), "the last byte of the correct proof alone is rejected")
         if not sym:
             flipped = bytearray(ref["M2"])
             flipped[seed % 64] ^= 1 << (seed % 8)
